@@ -23,7 +23,7 @@ from collections import Counter
 
 VERIF = os.path.dirname(os.path.dirname(os.path.abspath(__file__)))
 NPROC = int(os.environ.get("VERIF_NPROC", "16"))
-MAX_REPLAYS = 20
+MAX_REPLAYS = int(os.environ.get("VERIF_MAX_REPLAYS", "20"))
 
 
 def jdefault(o):
